@@ -13,9 +13,9 @@ use vref::sec::Licence;
 /// one coordinate per dimension; 0 is the default
 pub type Assign = Vec<usize>;
 
-pub const DIM_NAMES: [&str; 24] = [
+pub const DIM_NAMES: [&str; 25] = [
     "use_nla", "restricted_admin", "blank_creds", "auto_logon", "use_hash", "client_name", "screen", "layout", "credentials", "select_ssl_although_nla", "user_id", "share_id", "version", "sc_core_optional", "block_order", "unknown_block", "channels", "licence",
-    "capabilities", "source_descriptor", "reactivations", "reuse_share_id_on_reactivation", "licence_security_flags", "set_error_info_during_finalization",
+    "capabilities", "source_descriptor", "reactivations", "reuse_share_id_on_reactivation", "licence_security_flags", "set_error_info_during_finalization", "builder_call_order",
 ];
 
 pub fn names() -> Vec<String> {
@@ -23,7 +23,7 @@ pub fn names() -> Vec<String> {
 }
 
 pub fn dim_sizes() -> Vec<usize> {
-    vec![2, 2, 2, 2, 2, names().len(), 4, 3, 3, 2, 6, 4, 5, 3, 6, 2, 3, 5, 4, 3, 3, 2, 2, 5]
+    vec![2, 2, 2, 2, 2, names().len(), 4, 3, 3, 2, 6, 4, 5, 3, 6, 2, 3, 5, 4, 3, 3, 2, 2, 5, 4]
 }
 
 pub fn build(a: &Assign) -> (ConnCfg, ServerParams) {
@@ -64,6 +64,7 @@ pub fn build(a: &Assign) -> (ConnCfg, ServerParams) {
     p.reuse_share_id = a[21] == 1;
     p.licence_sec_flags = [0x0080u16, 0x0280][a[22]];
     p.errinfo_before = a[23];
+    c.builder_order = a[24] as u8;
     (c, p)
 }
 
@@ -126,7 +127,7 @@ impl Prop for C03 {
         d
     }
     fn rule(&self) -> String {
-        format!("cases = (connector configuration, conforming-server parameters) over 24 dimensions ({} alternatives in total): NLA, restricted admin, blank credentials, auto logon, password|hash, 9 client names, 4 screen sizes, 3 layouts, 3 credential sets, SSL although NLA offered, 6 user ids (1001..65535), 4 share ids, 5 versions, optional SC_CORE fields, 6 block orders, unknown block, SC_NET padding, 5 licence variants, 4 capability lists (incl. the Windows capture, unknown and empty sets), 3 source-descriptor lengths, 0..2 reactivations, fresh or reused share id on reactivation, licence security-header flags 0x0080 / 0x0280, a Set Error Info (ERRINFO_NONE) PDU before each of the four server finalization PDUs. Enumerated: the default, every single alternative, every pair, every triple (every quadruple in thorough). Each case is a full real Connector::connect over real TLS + activation + 4 input events + shutdown; oracle: success, mandated message order, no message written while the reply it depends on is unread, identifiers echoed. Non-trivial: at least one non-default coordinate.", dim_sizes().iter().map(|s| s - 1).sum::<usize>())
+        format!("cases = (connector configuration, conforming-server parameters) over 25 dimensions ({} alternatives in total): NLA, restricted admin, blank credentials, auto logon, password|hash, 9 client names, 4 screen sizes, 3 layouts, 3 credential sets, SSL although NLA offered, 6 user ids (1001..65535), 4 share ids, 5 versions, optional SC_CORE fields, 6 block orders, unknown block, SC_NET padding, 5 licence variants, 4 capability lists (incl. the Windows capture, unknown and empty sets), 3 source-descriptor lengths, 0..2 reactivations, fresh or reused share id on reactivation, licence security-header flags 0x0080 / 0x0280, a Set Error Info (ERRINFO_NONE) PDU before each of the four server finalization PDUs, 4 orders of the Connector builder calls (flags then credentials, credentials then flags, re-configuration of a connector set up for another account with every flag inverted, flags-credentials-flags). Enumerated: the default, every single alternative, every pair, every triple (every quadruple in thorough). Each case is a full real Connector::connect over real TLS + activation + 4 input events + shutdown; oracle: success, mandated message order, no message written while the reply it depends on is unread, identifiers echoed. Non-trivial: at least one non-default coordinate.", dim_sizes().iter().map(|s| s - 1).sum::<usize>())
     }
     fn assumptions(&self) -> Vec<String> {
         vec![
@@ -236,7 +237,7 @@ impl Prop for C04 {
         }
     }
     fn rule(&self) -> String {
-        "cases = full conversations (as C03) whose every client message is parsed by the strict reference parsers: TPKT/X.224, BER connect-initial, PER conference-create-request (length = 14 + blocks), CS_CORE/CS_SECURITY/CS_NET block lengths, clientName = 32 bytes holding <=15 UTF-16 units + NUL, info packet cb* fields / terminators / extended info, share control totalLength, share data lengths, confirm-active counts and per-type capability sizes, input PDU numEvents, NTLM NEGOTIATE/AUTHENTICATE descriptor triples, strict DER TSRequest/TSCredentials. Configurations: default, every single alternative and every pair of the 24 C03 dimensions (every triple in thorough), and every string of the Unicode alphabet (class^len for class in {a, é, 日, 😀} x len in {0,1,7,8,15,16,17,31,32,64}, every mixed string of <=3 code points, the boundary code points of every UTF-8/UTF-16 encoding length) as client name, domain, user and password, with NLA on and off; plus the length sweep: domain, user and password of every length 0..140 UTF-16 units (0..300 thorough) against an RDP5 and an RDP4 server (info packet with and without extended info), NLA on and off, so that every emitted length field crosses its 0x7f/0x80 and 0xff/0x100 encoding boundaries. Non-trivial: every case but the default.".into()
+        "cases = full conversations (as C03) whose every client message is parsed by the strict reference parsers: TPKT/X.224, BER connect-initial, PER conference-create-request (length = 14 + blocks), CS_CORE/CS_SECURITY/CS_NET block lengths, clientName = 32 bytes holding <=15 UTF-16 units + NUL, info packet cb* fields / terminators / extended info, share control totalLength, share data lengths, confirm-active counts and per-type capability sizes, input PDU numEvents, NTLM NEGOTIATE/AUTHENTICATE descriptor triples, strict DER TSRequest/TSCredentials. Configurations: default, every single alternative and every pair of the 25 C03 dimensions (every triple in thorough), and every string of the Unicode alphabet (class^len for class in {a, é, 日, 😀} x len in {0,1,7,8,15,16,17,31,32,64}, every mixed string of <=3 code points, the boundary code points of every UTF-8/UTF-16 encoding length) as client name, domain, user and password, with NLA on and off; plus the length sweep: domain, user and password of every length 0..140 UTF-16 units (0..300 thorough) against an RDP5 and an RDP4 server (info packet with and without extended info), NLA on and off, so that every emitted length field crosses its 0x7f/0x80 and 0xff/0x100 encoding boundaries. Non-trivial: every case but the default.".into()
     }
     fn assumptions(&self) -> Vec<String> {
         vec![
@@ -325,7 +326,15 @@ impl Prop for C17 {
     }
     fn prepare(&mut self, tier: Tier) -> Result<(), String> {
         let mut cs = vec![];
-        let mut creds: Vec<(String, String, String)> = vec![("dom".into(), "user".into(), "S3cr3t-pässwörd".into()), ("".into(), "u".into(), "pw1234".into()), ("D".into(), "user2".into(), "pä😀ss\u{10400}".into())];
+        let mut creds: Vec<(String, String, String)> = vec![
+            ("dom".into(), "user".into(), "S3cr3t-pässwörd".into()),
+            ("".into(), "u".into(), "pw1234".into()),
+            ("D".into(), "user2".into(), "pä😀ss\u{10400}".into()),
+            // each string empty in turn (an empty user name with a password, an empty password, nothing at all)
+            ("dom".into(), "".into(), "pw1234".into()),
+            ("dom".into(), "user".into(), "".into()),
+            ("".into(), "".into(), "".into()),
+        ];
         if tier == Tier::Thorough {
             for s in string_alphabet() {
                 if s.encode_utf16().count() >= 3 {
@@ -344,9 +353,21 @@ impl Prop for C17 {
                 c.client.domain = d.clone();
                 c.client.user = u.clone();
                 c.client.password = pw.clone();
+                // a server that selects something the client did not offer (or falls back to standard RDP security):
+                // the connection is refused, and nothing of the chosen mode's secrets may have left by then
+                for sel in [0u32, 2, 8, 3] {
+                    let offered: u32 = if c.use_nla { 3 } else { 1 };
+                    if sel == 0 || sel & offered != sel {
+                        cs.push((c.clone(), sel));
+                    }
+                }
                 let sels: Vec<u32> = if c.use_nla { vec![2, 1] } else { vec![1] };
                 for sel in sels {
-                    cs.push((c.clone(), sel));
+                    for order in 0..4u8 {
+                        let mut c2 = c.clone();
+                        c2.builder_order = order;
+                        cs.push((c2, sel));
+                    }
                 }
             }
         }
@@ -361,7 +382,7 @@ impl Prop for C17 {
         json!({"idx": idx, "connector": c, "server_selects": s})
     }
     fn rule(&self) -> String {
-        "cases = all 32 combinations of {NLA, restricted admin, blank credentials, auto logon, password|hash} x 3 credential sets (every alphabet string as password in thorough) x every protocol the server may select among those offered; full real connect over real TLS; oracle: decrypted TSCredentials and parsed Client Info match the mode table, the negotiation request announces restricted admin, auto-logon bit iff requested, the password (UTF-8 and UTF-16LE) appears neither on the raw transport nor in any NTLM token, credential-bearing messages only inside TLS. Non-trivial: all.".into()
+        "cases = all 32 combinations of {NLA, restricted admin, blank credentials, auto logon, password|hash} x 6 credential sets incl. each of domain / user / password empty (every alphabet string as password in thorough) x every protocol the server may select among those offered x 4 orders of the Connector builder calls, plus servers selecting a protocol that was not offered (incl. HYBRID although NLA is off, and standard RDP security): refused with no CredSSP message, no Client Info and no password anywhere (incl. re-configuring a connector that was set up for another account with every flag inverted); full real connect over real TLS; oracle: decrypted TSCredentials and parsed Client Info match the mode table, the negotiation request announces restricted admin, auto-logon bit iff requested, the password (UTF-8 and UTF-16LE) appears neither on the raw transport nor in any NTLM token, credential-bearing messages only inside TLS. Non-trivial: all.".into()
     }
     fn assumptions(&self) -> Vec<String> {
         vec!["with a password hash the connector has no clear-text password: both structures then carry an empty password".into()]
@@ -380,6 +401,13 @@ impl Prop for C17 {
             Ok(t) => t,
             Err(e) => return Outcome::fail("setup", "machinery", e),
         };
+        let offered: u32 = if c.use_nla { 3 } else { 1 };
+        if sel == 0 || sel & offered != sel {
+            return match wire::check_c17_unoffered(&t) {
+                Some(f) => Outcome::fail("leak-or-mode-mismatch", f.sig, f.detail),
+                None => Outcome::pass(format!("unoffered-selection-refused:nla{}:sel{}", c.use_nla, sel), true),
+            };
+        }
         match wire::check_c17(&t) {
             Some(f) => Outcome::fail("leak-or-mode-mismatch", f.sig, f.detail),
             None => Outcome::pass(format!("ok:nla{}:ra{}:blank{}:hash{}:sel{}", c.use_nla, c.restricted_admin, c.blank_creds, c.use_hash, sel), true),
